@@ -197,8 +197,13 @@ class FuseMaxMinToClip(_FuseMinMaxBase):
         second_node: ir.Node,
         input_name: str = "",
     ) -> list[tuple[ir.Tensor, str]]:
-        lower_bound = np.max([input_.const_value.numpy() for input_ in first_node.inputs[1:]])
-        upper_bound = np.min([input_.const_value.numpy() for input_ in second_node.inputs[1:]])
+        lower_bound = np.max(
+            # One-element constants of any rank (see check)
+            [input_.const_value.numpy().reshape(()) for input_ in first_node.inputs[1:]]
+        )
+        upper_bound = np.min(
+            [input_.const_value.numpy().reshape(()) for input_ in second_node.inputs[1:]]
+        )
         return [
             (ir.tensor(lower_bound), f"{input_name}_min"),
             (ir.tensor(upper_bound), f"{input_name}_max"),
@@ -233,8 +238,13 @@ class FuseMinMaxToClip(_FuseMinMaxBase):
         second_node: ir.Node,
         input_name: str = "",
     ) -> list[tuple[ir.Tensor, str]]:
-        upper_bound = np.min([input_.const_value.numpy() for input_ in first_node.inputs[1:]])
-        lower_bound = np.max([input_.const_value.numpy() for input_ in second_node.inputs[1:]])
+        upper_bound = np.min(
+            [input_.const_value.numpy().reshape(()) for input_ in first_node.inputs[1:]]
+        )
+        lower_bound = np.max(
+            # One-element constants of any rank (see check)
+            [input_.const_value.numpy().reshape(()) for input_ in second_node.inputs[1:]]
+        )
         return [
             (ir.tensor(lower_bound), f"{input_name}_min"),
             (ir.tensor(upper_bound), f"{input_name}_max"),
